@@ -114,7 +114,7 @@ static std::vector<unsigned char> encode_as(const ustr &text, int enc, bool bom)
     }
     return o;
 }
-static void corrupt(std::vector<unsigned char> &b, Rng &r, const Layout *lay) {
+void doc_corrupt(std::vector<unsigned char> &b, Rng &r, const Layout *lay) {
     if (b.empty()) { b.push_back((unsigned char) r.below(256)); return; }
     size_t pos = (size_t) r.below(b.size());
     if (lay && !lay->toks.empty() && r.chance(1, 2)) { const Tok &t = lay->toks[r.below(lay->toks.size())]; pos = std::min(b.size() - 1, r.chance(1, 2) ? t.start : (t.end ? t.end - 1 : 0)); }   // near token boundaries (offsets approximate for non-ASCII text)
@@ -211,7 +211,7 @@ static RunResult run_c03(const RunSpec &spec) {
         bytes.push_back('\n'); lay = NULL;
     }
     int ncor = spec.mods.no_faults ? 0 : (int) fr.weighted({30, 30, 20, 10, 6, 4});
-    for (int i = 0; i < ncor; ++i) corrupt(bytes, fr, lay);
+    for (int i = 0; i < ncor; ++i) doc_corrupt(bytes, fr, lay);
     ParseOpts o; gen_opts(o, r);
     StreamCfg sc; sc.chunk = r.chance(1, 2) ? (size_t) r.range(1, 300) : 0;
     bool stream_fault = false;
